@@ -216,3 +216,18 @@ Proof.
     refine (ws_reformat_intro " " "" (String nl " ") "x; }" (firstn 7 (lexemes_of "a = enum { x; }")) "a = enum {" (skipn 7 (lexemes_of "a = enum { x; }")) _ _ _ _ _ _ _ _);
       try rewrite firstn_skipn; try (vm_compute; reflexivity); [vm_compute; auto | vm_compute; repeat constructor].
 Qed.
+
+(* the token-level statement behind the two theorems above, for the grammar of this run: the changed text is tokenised with the same lexemes in
+   front, the same token types and texts overall, and a lexical error neither appears nor disappears *)
+Theorem C11_white_space_same_tokens : forall c, In c [nl; " "%char; "009"%char; "013"%char] ->
+  forall w1 w2 y la x rest1,
+  run_len ws_pred w1 = String.length w1 -> run_len ws_pred w2 = String.length w2 -> (match y with EmptyString => true | String a _ => negb (ws_pred a) end) = true ->
+  lex_all lexer_rules (x ++ String c (w1 ++ y)) = Some (la ++ rest1) -> concat_lexemes la = x -> no_err la ->
+  exists rest2, lex_all lexer_rules (x ++ String c (w2 ++ y)) = Some (la ++ rest2) /\
+    Forall2 same_tok (tokens_of (la ++ rest1)) (tokens_of (la ++ rest2)) /\ has_lex_error (la ++ rest1) = has_lex_error (la ++ rest2).
+Proof.
+  intros c Hc w1 w2 y la x rest1 H1 H2 Hy HL Hla Hne. unfold lex_all in *.
+  apply (skipped_run_same_tokens lexer_rules "WS" ws_set ws_pred c w1 w2 y la x (String.length (x ++ String c (w1 ++ y))) (String.length (x ++ String c (w2 ++ y))) 1 0 rest1); try assumption; try reflexivity;
+    try exact ws_rule_in_grammar; try apply le_n; destruct Hc as [<-|[<-|[<-|[<-|[]]]]]; vm_compute; reflexivity.
+Qed.
+Print Assumptions C11_white_space_same_tokens.
